@@ -77,6 +77,41 @@ func g03Rename(f *File, n ast.Node, ren map[string]string) string {
 	return out
 }
 
+// g03Canon renames the receiver and the parameters of a function (by position) to the names the
+// shapes below are written with: renaming them is not a change of shape.  The AST is private to
+// this run, so the identifiers are rewritten in place.
+func g03Canon(fd *ast.FuncDecl, recv string, params ...string) {
+	ren := map[string]string{}
+	if fd.Recv != nil && len(fd.Recv.List) == 1 && len(fd.Recv.List[0].Names) == 1 && recv != "" {
+		ren[fd.Recv.List[0].Names[0].Name] = recv
+	}
+	i := 0
+	for _, f := range fd.Type.Params.List {
+		for _, n := range f.Names {
+			if i < len(params) && params[i] != "" {
+				ren[n.Name] = params[i]
+			}
+			i++
+		}
+	}
+	for from, to := range ren {
+		if from == to || from == "_" {
+			delete(ren, from)
+		}
+	}
+	if len(ren) == 0 {
+		return
+	}
+	ast.Inspect(fd, func(x ast.Node) bool {
+		if id, ok := x.(*ast.Ident); ok {
+			if to, ok := ren[id.Name]; ok {
+				id.Name = to
+			}
+		}
+		return true
+	})
+}
+
 type g03Call struct {
 	src string
 	pos token.Pos
@@ -279,6 +314,7 @@ func genG03(repo string, w *Out) error {
 	if err != nil {
 		return err
 	}
+	g03Canon(cc, "c", "ctx", "donec")
 	ccalls := g03Calls(cp, cc.Body)
 	cb, ok := g03Find(ccalls, "io.CopyBuffer(c.dst, c.src, buf)")
 	if !ok {
@@ -301,6 +337,7 @@ func genG03(repo string, w *Out) error {
 	if err != nil {
 		return err
 	}
+	g03Canon(clw, "c", "ctx")
 	cwcalls := cp.CallsIn(clw.Body)
 	if len(cwcalls) < 2 || cwcalls[0] != "asCloseWriter(c.dst)" || cwcalls[1] != "cw.CloseWrite()" {
 		return fmt.Errorf("copy.go copier.closeWriter: expected asCloseWriter(c.dst) then cw.CloseWrite(), got %q", cwcalls)
@@ -312,6 +349,7 @@ func genG03(repo string, w *Out) error {
 	if err != nil {
 		return err
 	}
+	g03Canon(bc, "", "ctx", "cc")
 	waitsAll, graceFirst, spawnsAll := false, false, false
 	ast.Inspect(bc.Body, func(x ast.Node) bool {
 		rs, ok := x.(*ast.RangeStmt)
@@ -363,6 +401,7 @@ func genG03(repo string, w *Out) error {
 	if err != nil {
 		return err
 	}
+	g03Canon(gc, "", "ctx", "d", "cc")
 	gcalls := cp.CallsIn(gc.Body)
 	w.DefBool("grace_waits_period_then_closes_all", has(gcalls, "time.After(d)") && has(gcalls, "cc[i].close(ctx)"))
 
@@ -375,6 +414,7 @@ func genG03(repo string, w *Out) error {
 	if err != nil {
 		return err
 	}
+	g03Canon(tn, "p", "name", "res", "crw")
 	df1, ub1, err := g03TunnelShape(pc, "proxy_conn.go tunnel", tn.Body, []string{"p.brw.Reader"}, "p.conn")
 	if err != nil {
 		return err
@@ -387,6 +427,7 @@ func genG03(repo string, w *Out) error {
 	if err != nil {
 		return err
 	}
+	g03Canon(th, "p", "name", "rw", "req", "res", "crw")
 	h1, err := ph.CaseBody(th.Body, "1")
 	if err != nil {
 		return err
@@ -407,6 +448,7 @@ func genG03(repo string, w *Out) error {
 	if err != nil {
 		return err
 	}
+	g03Canon(rr, "p")
 	// how the three read deadlines are computed (modelled in Deadlines.v: dl_of, idle_eff, hdr_eff)
 	var ifs []string
 	ast.Inspect(rr.Body, func(x ast.Node) bool {
@@ -577,6 +619,7 @@ func genG03(repo string, w *Out) error {
 	if err != nil {
 		return err
 	}
+	g03Canon(hc, "p", "req")
 	deferClose, retClose := false, false
 	var tunnelPos token.Pos
 	ast.Inspect(hc.Body, func(x ast.Node) bool {
@@ -663,6 +706,7 @@ func genG03(repo string, w *Out) error {
 	if err != nil {
 		return err
 	}
+	g03Canon(dr, "d", "ctx", "network", "addr")
 	found := false
 	bytewise := false
 	var rsize int64
